@@ -402,8 +402,9 @@ def handle (j : Json) : Json :=
                    ("keyFlip_eq_model", Json.bool (ctxs.all (fun c => decide (keepL (flipWalk I E d) 0 c = getL t 0 c)))),
                    ("keyP_eq_model", Json.bool (ctxs.all (fun c => decide (keepL (polarity I E d) 0 c = getL t 0 c)))),
                    ("keySel_eq_model", Json.bool (ctxs.all (fun c => decide (keepL (sel I E d) 0 c = getL t 0 c)))),
-                   ("groupsOf_eq_model", Json.bool (decide (groupsOf (groupKey w t) okItems = gs))),
-                   ("skip_eq_model", Json.bool (decide (gbFillSkip w t [] items = gs))),
+                   -- (the two reference computations of the whole dictionary are run on flows of at most 64 values)
+                   ("groupsOf_eq_model", if items.length ≤ 64 then Json.bool (decide (groupsOf (groupKey w t) okItems = gs)) else Json.null),
+                   ("skip_eq_model", if items.length ≤ 64 then Json.bool (decide (gbFillSkip w t [] items = gs)) else Json.null),
                    ("wf", Json.bool (items.all (fun v => wfV w (.dict (v.context w))))),
                    ("agreeC_iff_key", Json.bool (pairs.all (fun ab =>
                       agreeOnB (selC I E d) (.dict ab.1) (.dict ab.2) == decide (getL t 0 ab.1 = getL t 0 ab.2)))),
